@@ -688,7 +688,8 @@ def n24_wildcard_param(body, log):
 
 
 def n22_format(body, log):
-    """N22: `format!("p0{}p1{}p2", a, b)` with plain `{}` placeholders only ==> `verif_format2(["p0", "p1", "p2"], &(a), &(b))`
+    """N22: `format!("p0{}p1{}p2", a, b)` with plain `{}` placeholders (or, instead, inline captured `{name}` ones, which are
+    `{}` with `name` as the argument) ==> `verif_format2(["p0", "p1", "p2"], &(a), &(b))`
     (Display formatting with `{}` is the concatenation of the literal pieces and the Display text of the arguments; the shim
     states the Display text of str / String / Cow<str>)."""
     while True:
@@ -709,10 +710,18 @@ def n22_format(body, log):
         text = lit[1:-1]
         if "{{" in text or "}}" in text:
             raise Unsupported("N22: escaped braces in format string")
+        args = parts[1:]
+        inline = re.findall(r"\{([A-Za-z_][A-Za-z0-9_]*)\}", text)
+        if inline:
+            # inline captured identifiers `{name}` are positional `{}` with `name` as the argument (std::fmt, implicit
+            # named arguments); mixing them with explicit arguments is not handled
+            if args or "{}" in text:
+                raise Unsupported("N22: inline `{name}` placeholders mixed with explicit arguments")
+            args = inline
+            text = re.sub(r"\{[A-Za-z_][A-Za-z0-9_]*\}", "{}", text)
         pieces = text.split("{}")
         if any("{" in x or "}" in x for x in pieces):
-            raise Unsupported("N22: format string uses placeholders other than `{}`")
-        args = parts[1:]
+            raise Unsupported("N22: format string uses placeholders other than `{}` / `{name}`")
         if len(args) != len(pieces) - 1 or not 1 <= len(args) <= 4:
             raise Unsupported("N22: %d placeholders, %d arguments" % (len(pieces) - 1, len(args)))
         new = "verif_format%d([%s], %s)" % (len(args), ", ".join('"%s"' % x for x in pieces), ", ".join("&(%s)" % a for a in args))
